@@ -220,12 +220,17 @@ func (column *ColumnData) SetDataLength(length uint32) {
 
 // parseColumns split whole data row packet into separate columns data
 func (packet *PacketHandler) parseColumns(columnFormats []uint16) error {
-	packet.columnCount = int(binary.BigEndian.Uint16(packet.descriptionBuf.Bytes()[:2]))
+	payload := packet.descriptionBuf.Bytes()
+	if len(payload) < 2 {
+		// a DataRow message too short to hold its column count
+		return ErrPacketTruncated
+	}
+	packet.columnCount = int(binary.BigEndian.Uint16(payload[:2]))
 
 	if packet.columnCount == 0 {
 		return nil
 	}
-	columnReader := bytes.NewReader(packet.descriptionBuf.Bytes()[2:])
+	columnReader := bytes.NewReader(payload[2:])
 	var columns []*ColumnData
 	for i := 0; i < packet.columnCount; i++ {
 		column := &ColumnData{}
